@@ -16,6 +16,7 @@ import (
 
 	"github.com/sassoftware/relic/v8/xverif/apkref"
 	"github.com/sassoftware/relic/v8/xverif/arts"
+	"github.com/sassoftware/relic/v8/xverif/cabref"
 	"github.com/sassoftware/relic/v8/xverif/cfb"
 	"github.com/sassoftware/relic/v8/xverif/der"
 	"github.com/sassoftware/relic/v8/xverif/evid"
@@ -269,6 +270,50 @@ func TestC05_MSI(t *testing.T) {
 		}
 		if !bytes.Equal(ref, digest) {
 			failf(t, cd, a, out, "embedded MSI digest %x differs from the reference (stream-order) digest %x", digest, ref)
+		}
+	})
+}
+
+// TestC05_CAB: the digest in a signed cabinet's SpcIndirectDataContent equals the
+// reference cabinet image hash; the cabinet stays readable for an independent reader.
+func TestC05_CAB(t *testing.T) {
+	rapid.Check(t, func(t *rapid.T) {
+		a, _, _, key, h, out, cleanup := signed(t, "cab", pipe.SigningKeys, allHashes, nil)
+		defer cleanup()
+		cd := &caseDesc{Format: "cab", Classes: a.Classes, Key: key, Hash: h.String(), Tool: "cab-digest-reference"}
+		record(cd, a)
+		c, err := cabref.Parse(out)
+		if err != nil {
+			failf(t, cd, a, out, "signed cabinet unreadable: %v", err)
+		}
+		if len(c.Trailer) == 0 {
+			failf(t, cd, a, out, "no signature after the cabinet")
+		}
+		// the signature is padded to a multiple of 8 bytes
+		tlv, pad, err := der.Parse(c.Trailer)
+		if err != nil {
+			failf(t, cd, a, out, "signature is not DER: %v", err)
+		}
+		if len(pad) >= 8 || len(bytes.Trim(pad, "\x00")) != 0 {
+			failf(t, cd, a, out, "%d bytes of non-padding after the signature", len(pad))
+		}
+		sd, err := der.ParseSignedData(tlv.Raw)
+		if err != nil {
+			failf(t, cd, a, out, "PKCS#7 unparsable: %v", err)
+		}
+		if err := sd.VerifySigner(&sd.SignerInfos[0], nil); err != nil {
+			failf(t, cd, a, out, "independent verification failed: %v", err)
+		}
+		_, digest, err := der.SpcIndirectDigest(sd.EContentValueBytes)
+		if err != nil {
+			failf(t, cd, a, out, "SpcIndirectDataContent: %v", err)
+		}
+		ref, err := cabref.AuthenticodeDigest(out, h.New())
+		if err != nil {
+			failf(t, cd, a, out, "reference digest: %v", err)
+		}
+		if !bytes.Equal(ref, digest) {
+			failf(t, cd, a, out, "embedded cabinet digest %x differs from the reference header+data digest %x", digest, ref)
 		}
 	})
 }
